@@ -426,6 +426,72 @@ func lastFramePolarity(c *core.Ctx, dec *ssa.Function, v int64) {
 				}
 			}
 		}
+		// the same test kept in a flag that runs the loop (  for last := false; !last; { ...; last = length < Max }  ): the walk
+		// from the assignment, with the flag's value assumed, must (short) not come back to the length read / (full) come back to it
+		// without leaving the function first
+		for _, b := range dec.Blocks {
+			for _, ins := range b.Instrs {
+				bo, ok := ins.(*ssa.BinOp)
+				if !ok {
+					continue
+				}
+				n, isK := core.ConstInt(bo.Y)
+				if !isK || n != v {
+					continue
+				}
+				if iff, isIf := b.Instrs[len(b.Instrs)-1].(*ssa.If); isIf && iff.Cond == ssa.Value(bo) {
+					continue // handled above
+				}
+				feedsPhi := false
+				for _, r := range *bo.Referrers() {
+					if _, isPhi := r.(*ssa.Phi); isPhi {
+						feedsPhi = true
+					}
+				}
+				var shortMeansTrue bool
+				switch bo.Op {
+				case token.LSS, token.NEQ:
+					shortMeansTrue = true
+				case token.GEQ, token.EQL:
+					shortMeansTrue = false
+				default:
+					continue
+				}
+				if !feedsPhi || len(b.Succs) != 1 {
+					continue
+				}
+				nTests++
+				lenBlk := fm.length.call.Block()
+				walk := func(assumeTrue bool) (again bool, leaves *ssa.BasicBlock) {
+					assume := func(cond ssa.Value) (bool, bool) {
+						if cond != ssa.Value(bo) {
+							return false, false
+						}
+						// the edges that contradict the assumption are cut
+						return !assumeTrue, assumeTrue
+					}
+					core.Explore(b.Succs[0], core.PredIndex(b, 0), assume, func(x *ssa.BasicBlock) bool {
+						if x == lenBlk {
+							again = true
+							return false
+						}
+						if _, isRet := x.Instrs[len(x.Instrs)-1].(*ssa.Return); isRet {
+							leaves = x
+						}
+						return true
+					})
+					return
+				}
+				shortAgain, _ := walk(shortMeansTrue)
+				fullAgain, fullLeaves := walk(!shortMeansTrue)
+				if shortAgain || !fullAgain {
+					good = false
+				}
+				if fullLeaves != nil {
+					cutShort = fullLeaves
+				}
+			}
+		}
 		if nTests > 0 {
 			pos := dec.Pos()
 			if cutShort != nil {
